@@ -11,6 +11,7 @@ mod cparse;
 mod gen;
 mod gen2;
 mod gen3;
+mod gen4;
 mod props;
 mod sem;
 
